@@ -31,6 +31,9 @@ struct GateState {
     open: HashSet<usize>,
     finished: HashSet<usize>,
     hold_calls: HashSet<usize>,
+    /// threads to be stopped right after their transaction has ended, before they go on
+    hold_end: HashSet<usize>,
+    waiting_end: HashSet<usize>,
     events: Vec<String>,
 }
 
@@ -64,6 +67,26 @@ impl Gate {
         }
         g.waiting_begin.remove(&tid);
         g.waiting_call.remove(&tid);
+        self.cv.notify_all();
+    }
+    /// stop a thread whose transaction has just ended (when the schedule asks for it)
+    fn park_end(&self, tid: usize) {
+        let mut g = self.st.lock().unwrap();
+        if !g.hold_end.contains(&tid) {
+            return;
+        }
+        g.waiting_end.insert(tid);
+        self.cv.notify_all();
+        loop {
+            if let Some(n) = g.grants.get_mut(&tid) {
+                if *n > 0 {
+                    *n -= 1;
+                    break;
+                }
+            }
+            g = self.cv.wait(g).unwrap();
+        }
+        g.waiting_end.remove(&tid);
         self.cv.notify_all();
     }
     fn note(&self, f: impl FnOnce(&mut GateState)) {
@@ -146,6 +169,9 @@ impl Drop for GateTxn<'_> {
         self.gate.note(|g| {
             *g.ended.entry(tid).or_insert(0) += 1;
         });
+        if !std::thread::panicking() {
+            self.gate.park_end(tid);
+        }
     }
 }
 
@@ -239,27 +265,43 @@ impl HCtx {
         }
         let now = chrono::Utc::now().timestamp();
         let results: Arc<Mutex<HashMap<usize, std::thread::Result<RawResult>>>> = Arc::new(Mutex::new(HashMap::new()));
-        let mut handles = vec![];
-        for (tid, (prep, web)) in preps.iter().zip(webs.into_iter()).enumerate() {
-            let gate2 = gate.clone();
-            let res2 = results.clone();
-            let prep2 = Prepared {
+        // a request is SENT when the schedule first mentions it (until then it does not exist): what had
+        // finished by then precedes it in real time, and is noted as `RT:i<j`
+        let handles: std::cell::RefCell<Vec<std::thread::JoinHandle<()>>> = std::cell::RefCell::new(vec![]);
+        let pending: std::cell::RefCell<Vec<Option<(Prepared, WebServer)>>> = std::cell::RefCell::new(
+            preps.iter().zip(webs.into_iter()).map(|(prep, web)| Some((Prepared {
                 method: prep.method.clone(), uri: prep.uri.clone(), cid_bytes: prep.cid_bytes.clone(), ct_val: prep.ct_val.clone(),
                 chunks: prep.chunks.clone(), broken: prep.broken, http10: prep.http10, op_prefix: String::new(), route_class: String::new(), seg_class: String::new(), cid_class: String::new(), extra: prep.extra.clone(),
-            };
-            handles.push(std::thread::spawn(move || {
-                TID.with(|t| t.set(tid));
-                let r = run_request(web, &prep2);
-                res2.lock().unwrap().insert(tid, r);
-                gate2.note(|g| {
-                    g.finished.insert(tid);
-                });
-            }));
-        }
+            }, web))).collect());
+        let rt_notes: std::cell::RefCell<Vec<String>> = std::cell::RefCell::new(vec![]);
+        let start = |tid: usize| {
+            let taken = pending.borrow_mut().get_mut(tid).and_then(|x| x.take());
+            if let Some((prep2, web)) = taken {
+                {
+                    let g = gate.st.lock().unwrap();
+                    let mut fin: Vec<usize> = g.finished.iter().cloned().collect();
+                    fin.sort();
+                    for i in fin {
+                        rt_notes.borrow_mut().push(format!("RT:{i}<{tid}"));
+                    }
+                }
+                let gate2 = gate.clone();
+                let res2 = results.clone();
+                handles.borrow_mut().push(std::thread::spawn(move || {
+                    TID.with(|t| t.set(tid));
+                    let r = run_request(web, &prep2);
+                    res2.lock().unwrap().insert(tid, r);
+                    gate2.note(|g| {
+                        g.finished.insert(tid);
+                    });
+                }));
+            }
+        };
         let ended = |g: &GateState, i: usize| *g.ended.get(&i).unwrap_or(&0);
         let mut notes: Vec<String> = vec![];
         // run one whole transaction of thread i
         let run_txn = |i: usize, notes: &mut Vec<String>| {
+            start(i);
             if !gate.wait(10_000, |g| g.waiting_begin.contains(&i) || g.finished.contains(&i)) {
                 notes.push(format!("HANG:t{i}-never-reached-begin"));
                 return;
@@ -278,6 +320,8 @@ impl HCtx {
                 // begin-while-held probe
                 let (i, k) = left.split_once('.').unwrap();
                 let (i, k, j): (usize, usize, usize) = (i.parse().unwrap(), k.parse().unwrap(), j.parse().unwrap());
+                start(i);
+                start(j);
                 if !gate.wait(10_000, |g| g.waiting_begin.contains(&i) || g.finished.contains(&i)) { notes.push(format!("HANG:t{i}")); continue; }
                 if gate.st.lock().unwrap().finished.contains(&i) { continue; }
                 gate.note(|g| { g.hold_calls.insert(i); });
@@ -325,11 +369,41 @@ impl HCtx {
                     }
                     let _ = gate.wait(20_000, |g| ended(g, i) > before_i || g.finished.contains(&i));
                 }
+            } else if let Some(i) = tok.strip_suffix('<') {
+                // run thread i's next transaction and stop the thread right after the transaction has
+                // ended (before it does anything with what it read)
+                let i: usize = i.parse().unwrap();
+                if i >= n { continue; }
+                start(i);
+                if !gate.wait(10_000, |g| g.waiting_begin.contains(&i) || g.finished.contains(&i)) { notes.push(format!("HANG:t{i}-never-reached-begin")); continue; }
+                if gate.st.lock().unwrap().finished.contains(&i) { continue; }
+                gate.note(|g| { g.hold_end.insert(i); });
+                gate.grant(i);
+                if !gate.wait(20_000, |g| g.waiting_end.contains(&i) || g.finished.contains(&i)) { notes.push(format!("HANG:t{i}-transaction-did-not-end")); }
+            } else if let Some(i) = tok.strip_suffix('>') {
+                // let a thread stopped after its transaction go on (to its next transaction or to its answer)
+                let i: usize = i.parse().unwrap();
+                if i >= n { continue; }
+                let mut parked = false;
+                gate.note(|g| { g.hold_end.remove(&i); parked = g.waiting_end.contains(&i); });
+                if parked {
+                    gate.grant(i);
+                    let _ = gate.wait(10_000, |g| g.waiting_begin.contains(&i) || g.finished.contains(&i));
+                }
             } else {
                 let i: usize = tok.parse().unwrap();
                 if i < n {
                     run_txn(i, &mut notes);
                 }
+            }
+        }
+        // nobody stays stopped after a transaction
+        for i in 0..n {
+            let mut parked = false;
+            gate.note(|g| { g.hold_end.remove(&i); parked = g.waiting_end.contains(&i); });
+            if parked {
+                gate.grant(i);
+                let _ = gate.wait(10_000, |g| g.waiting_begin.contains(&i) || g.finished.contains(&i));
             }
         }
         // drain: finish every request, lowest thread id first
@@ -342,9 +416,10 @@ impl HCtx {
                 }
             }
         }
-        for h in handles {
+        for h in handles.into_inner() {
             let _ = h.join();
         }
+        notes.extend(rt_notes.into_inner());
         notes.extend(gate.st.lock().unwrap().events.iter().cloned());
         let mut results = results.lock().unwrap();
         self.l1.out.push(format!("OP conc {mode} {n}"));
